@@ -337,7 +337,24 @@ func randomizeRule(P *Program, R *Report) {
 		return
 	}
 	fs := litFieldStores(fn, "new:gabi.CLSignature")
-	r := tsym("call:common.RandomBigInt(<gabikeys.PublicKey>.Params.DerivedParameters.LRA)#0")
+	// r: the one uniform draw of LRA bits made in this call (RandomBigInt(LRA) or its body written out)
+	var gen *ssa.Call
+	nGen := 0
+	for _, c := range callsIn(fn) {
+		if cc, isCall := c.(*ssa.Call); isCall {
+			if bits, ok := uniformDraw(P, cc); ok {
+				nGen++
+				if bits.String() == parseAffine("LRA").String() || bits.String() == "<gabikeys.PublicKey>.Params.DerivedParameters.LRA" {
+					gen = cc
+				}
+			}
+		}
+	}
+	R.decide(rule, kCLRandomize+":r-source", "r is one uniform draw of LRA bits made in this call", gen != nil && nGen == 1, fmt.Sprintf("%d draws", nGen), P.Pos(fn.Pos()))
+	if gen == nil {
+		return
+	}
+	r := tsym(desc(gen) + "#0")
 	N, S := tsym(pkD+".N"), tsym(pkD+".S")
 	A, E, V := tsym(clsig+".A"), tsym(clsig+".E"), tsym(clsig+".V")
 	rows := []struct {
@@ -365,7 +382,7 @@ func randomizeRule(P *Program, R *Report) {
 	}
 	mp(P, R, rule, kCLRandomize+":r-error", "a randomised signature is returned only if drawing r succeeded", fn, AcceptNilErr(1), &MustPass{Match: func(a Atom) bool {
 		c, idx := callAndResult(a.V)
-		return c != nil && calleeName(c) == "common.RandomBigInt" && idx == 1 && a.Want == Nil
+		return c == gen && idx == 1 && a.Want == Nil
 	}})
 }
 
